@@ -1,13 +1,15 @@
-"""Plug-in IBM used by the verification harness: kills listed pids at listed steps,
+"""Plug-in IBM used by the verification harness: kills listed pids at listed steps, deactivates ("settles":
+active = False, the tracker no longer moves them horizontally) listed pids at listed steps,
 optionally ages particles (instance variable 'age' += dt) and kills above 'lifetime' seconds.
 Loaded by path through ladim.model.load_module."""
 import numpy as np
 
 
 class IBM:
-    def __init__(self, modules, kill=None, lifetime=None, age=False, **kwargs):
+    def __init__(self, modules, kill=None, lifetime=None, age=False, settle=None, **kwargs):
         self.modules = modules
         self.kill = {int(k): list(v) for k, v in (kill or {}).items()}
+        self.settle = {int(k): list(v) for k, v in (settle or {}).items()}
         self.lifetime = lifetime
         self.age = age or lifetime is not None
         self.dt = modules["time"].dtsec
@@ -17,6 +19,8 @@ class IBM:
         step = self.modules["time"].step
         if self.age:
             state["age"] = state["age"] + self.dt
+        if step in self.settle:
+            state["active"] = state.active & ~np.isin(state.pid, self.settle[step])
         if step in self.kill:
             state["alive"] = state.alive & ~np.isin(state.pid, self.kill[step])
         if self.lifetime is not None:
